@@ -575,7 +575,8 @@ def _run_case(m, A):
                 return canon_T(v)
             return 'not-a-time-object:%s' % type(v).__name__
         return Case('C03 derive uaxis %s %s' % (axis_tok(ax, base), uchange_tok(ch).split(' ', 2)[2]), call(f),
-                    'uniform/derive/%s%s' % (ch['c'][1:], '-r' if ch['route'].endswith('-r') else ''), meta=m, nontrivial=ax['n'] >= 2)
+                    'uniform/derive/%s%s' % ('neg' if ch['route'].endswith('-neg') else ch['c'][1:], '-r' if ch['route'].endswith('-r') else ''),
+                    meta=m, nontrivial=ax['n'] >= 2)
     # ---- container
     if kind in ('uaxis', 'series'):
         ax = m['axis']
@@ -920,8 +921,10 @@ def check_case(c):
 
 def derive_samples(ax, ch):
     """element-wise result of `axis ∘ x` under numpy broadcasting with python ints; None: shapes do not match"""
-    n, xs = ax['n'], ch['xs']
+    n, xs = ax['n'], ch.get('xs')
     times = [ax['t0'] + i * ax['dt'] for i in range(n)]
+    if ch['c'] == 'umul':       # a factor 0 would put every sample on one instant: refused like `*= 0`
+        return [t * ch['k'] for t in times] if ch['k'] != 0 else None
     f = {'uadd': lambda t, x: t + x, 'usub': lambda t, x: t - x, 'ursub': lambda t, x: x - t}[ch['c']]
     if ch['sc'] or len(xs) == 1:
         return [f(t, xs[0]) for t in times]
@@ -943,6 +946,8 @@ def check_derive(c):
     if m.get('mutated'):
         return fail('operand-axis-changed', 'the arithmetic changed the axis it was applied to')
     want = derive_samples(ax, ch)
+    if want is None and ch['c'] == 'umul':
+        return None if got == 'err ValueError' else fail('accepts-factor-0', 'a factor 0 would put every sample on one instant: ValueError expected, as for `*= 0`')
     if want is None:
         return None if got == 'err ValueError' else fail('accepts', 'operand shapes do not match: ValueError expected')
     if not got.startswith('ok '):
@@ -1146,6 +1151,10 @@ def derive_axis(a, ch, unit):
     """arithmetic that makes a NEW object from the axis `a`: a + x, x + a, a - x, x - a"""
     x = uchange_operand(ch, unit)
     c, rev = ch['c'], ch['route'].endswith('-r')
+    if c == 'umul':
+        if ch['route'].endswith('-neg'):
+            return -a
+        return x * a if rev else a * x
     if c == 'uadd':
         return x + a if rev else a + x
     if c == 'usub':
@@ -1299,7 +1308,7 @@ def run_hist(m):
         wsamp = list(cur['t']['ps']) if 't' in cur else [cur['axis']['t0'] + i * cur['axis']['dt'] for i in range(cur['axis']['n'])]
         impls.append(impl)
         trace.append({'chg': ch, 'impl': impl, 'want': want, 'samples_ok': samples == wsamp, 'operand_changed': bool(box.get('operand_changed'))})
-        if samples != wsamp or not impl.startswith('ok') or (impl != want and not ch['route'].startswith('derived')):
+        if samples != wsamp or not impl.startswith('ok') or (impl != want and not (ch['route'].startswith('derived') and impl.startswith('ok U:'))):
             break               # the contents are no longer what the rest of the history was written for
         # (a derived axis that holds the right samples under wrong attributes goes on: its lookups are the failing inputs)
     m['_trace'] = trace
@@ -1330,7 +1339,7 @@ def check_hist(c):
                             'step %d of a history: %s %s left %s%s, want %s  [op: %s]'
                             % (i + 1, 'the arithmetic' if derived else 'the in-place change', ch, tr['impl'][:160],
                                '' if tr['samples_ok'] else ' (samples differ)', tr['want'][:160], c.line[:300]), {'meta': m}, case=c)
-                if derived and tr['samples_ok'] and tr['impl'].startswith('ok'):
+                if derived and tr['samples_ok'] and tr['impl'].startswith('ok U:'):
                     stale = stale or f      # go on: the lookups on this axis are the failing inputs
                     continue
                 return f
@@ -1663,8 +1672,14 @@ def gen_uchange(rng, ax, kind, derived=None):
     k = rng.random()
     reach = (abs(t0) + (n + 1) * abs(dt)) * 8
     derived = rng.random() < 0.3 if derived is None else derived
-    rroute = False
-    if derived:             # ordinary arithmetic: the result is a new axis, the old one stays
+    rroute, mroute = False, None
+    if derived and rng.random() < 0.3:      # axis * k, k * axis, -axis
+        kk = rng.choice([-1, -1, 2, -2, 3, 0])
+        if reach * max(1, abs(kk)) >= LIM:
+            kk = -1
+        ch = {'c': 'umul', 'k': kk}
+        mroute = 'derived-neg' if kk == -1 and rng.random() < 0.6 else rng.choice(['derived', 'derived-r'])
+    elif derived:           # ordinary arithmetic: the result is a new axis, the old one stays
         c = rng.choice(['uadd', 'uadd', 'usub', 'ursub'])
         rroute = c == 'uadd' and rng.random() < 0.4
         ch = dict(gen_uoperand(rng, ax, True, bare=rroute or c == 'ursub'), c=c)
@@ -1684,7 +1699,7 @@ def gen_uchange(rng, ax, kind, derived=None):
     if r[0] == 'ok' and (abs(r[1]['t0']) + (n + 1) * abs(r[1]['dt'])) * 8 >= LIM:
         ch, derived = {'c': 'umul', 'k': -1}, False
     if derived:
-        ch['route'] = 'derived-r' if rroute else 'derived'
+        ch['route'] = mroute or ('derived-r' if rroute else 'derived')
     else:
         ch['route'] = 'op' if kind == 'uaxis' else rng.choice(['attr', 'alias'])
     ch['ounit'] = rng.choice(UNITS)
@@ -1931,6 +1946,8 @@ S = 10**12
 _AX = {'unit': 's', 't0': 0, 'dt': 3 * S, 'n': 4, 'ctor': 'duration', 'D': 10 * S, 'g': S}
 _AXL = {'unit': 'ms', 't0': -3 * 10**9, 'dt': 2 * 10**9, 'n': 5, 'ctor': 'length', 'g': 10**9}
 _AXM = {'unit': 'ms', 't0': 0, 'dt': 2 * 10**9, 'n': 4, 'ctor': 'length', 'g': 10**9}
+_AXM2 = {'unit': 'ms', 't0': 2 * 10**9, 'dt': 2 * 10**9, 'n': 4, 'ctor': 'length', 'g': 10**9}
+_TIMES2 = {'c': 'umul', 'k': 2, 'route': 'derived', 'ounit': 'ms'}
 _PLUS5 = {'c': 'uadd', 'xs': [5 * 10**9], 'sc': True, 'form': 'pyint', 'route': 'derived', 'ounit': 'ms'}
 
 
@@ -1959,6 +1976,15 @@ CORPUS = [   # minimal inputs of the recorded findings + boundary cases, run fir
                                                             {'look': {'op': 'slice_during', 'e': _E('ms', start=5, stop=8)}}]},
     {'op': 'hist', 'kind': 'series', 'axis': _AXM, 'data': {'shape': [4], 'vals': [0, 1, 2, 3]},
      'steps': [{'chg': dict(_PLUS5)}, {'look': {'op': 'at', 'q': _TQ([7 * 10**9], True)}}, {'look': {'op': 'during', 'e': _E('ms', start=5, stop=8)}}]},
+    # finding 5: u * 2, 2 * u, -u
+    {'op': 'derive', 'kind': 'uaxis', 'axis': _AXM2, 'd': dict(_TIMES2)},
+    {'op': 'derive', 'kind': 'uaxis', 'axis': _AXM2, 'd': dict(_TIMES2, route='derived-r')},
+    {'op': 'derive', 'kind': 'uaxis', 'axis': _AXM2, 'd': dict(_TIMES2, k=-1, route='derived-neg')},
+    {'op': 'derive', 'kind': 'uaxis', 'axis': _AXM2, 'd': dict(_TIMES2, k=0)},
+    {'op': 'hist', 'kind': 'uaxis', 'axis': _AXM2, 'steps': [{'chg': dict(_TIMES2)}, {'look': {'op': 'index_at', 'q': _TQ([8 * 10**9], True)}},
+                                                             {'look': {'op': 'index_at', 'q': _TQ([4 * 10**9, 8 * 10**9, 12 * 10**9, 16 * 10**9], False)}}]},
+    {'op': 'hist', 'kind': 'uaxis', 'axis': _AXM2, 'steps': [{'chg': dict(_TIMES2, k=-1, route='derived-neg')}, {'look': {'op': 'index_at', 'q': _TQ([-4 * 10**9], True)}},
+                                                             {'look': {'op': 'slice_during', 'e': _E('ms', start=-6, stop=-2)}}]},
     # a sorted array, looked up, negated in place, looked up again (seeded change C03-6 and its class)
     {'op': 'hist', 'kind': 'tarray', 't': _T('s', [S, 2 * S, 3 * S, 4 * S]),
      'steps': [{'look': {'op': 'index_at', 'mode': 'before', 'q': _num(2.5), 'tol': None}}, {'chg': {'c': 'mul', 'k': -1, 'route': 'imul', 'ounit': 'ps'}},
